@@ -19,7 +19,7 @@ extern "C" void __sanitizer_set_report_fd(void *fd);
 
 static FILE *g_res = nullptr;
 // The library calls exit() from a few places (z_div/c_div on a zero divisor, readers, bridge): report it as an outcome.
-extern char g_cur_op_kind[32];
+extern __thread char g_cur_op_kind[32];
 extern "C" void __sanitizer_set_death_callback(void (*cb)(void));
 static int g_resfd = -1;
 static void on_exit_handler() {
@@ -102,6 +102,11 @@ int main(int argc, char **argv) {
         if (twice) {
             RunOutcome o2 = execute_case(c);
             if (o2.hash != o.hash) o.violations.push_back({"nondeterminism", "event-log hash differs between two executions of the same case", "MACHINERY|nondeterminism"});
+            if (!o.schedule.empty()) { // and once more from the recorded schedule: replay must reproduce the run exactly
+                Case cr = c; cr.schedule = o.schedule;
+                RunOutcome o3 = execute_case(cr);
+                if (o3.hash != o.hash) o.violations.push_back({"replay-divergence", "replaying the recorded schedule gives a different event log", "MACHINERY|replay-divergence"});
+            }
         }
         std::string casepath;
         if (!o.violations.empty()) {
